@@ -124,6 +124,11 @@ def do(e, d, op):
     elif kind == "popd":
         r = run(lambda: fv(e.pop(k, DFLT)))
         m = run(lambda: (lambda v: ("other", canon(DFLT)) if v is _MISSING else ("Field", k, canon(v)))(d.pop(k, _MISSING)))
+    elif kind == "popself":
+        # the default handed to pop is the very Field object stored under the key (or under a neighbouring key)
+        dflt = e.get(op[2]) if len(op) > 2 else e.get(k)
+        r = run(lambda: fv(e.pop(k, dflt)))
+        m = run(lambda: (lambda v: fv(dflt) if v is _MISSING else ("Field", k, canon(v)))(d.pop(k, _MISSING)))
     elif kind == "del":
         r = run(lambda: e.__delitem__(k))
         m = run(lambda: d.pop(k, None) and None)
@@ -314,7 +319,7 @@ def shards(tier):
     out = [("hist", init, i) for init in range(len(PARSED) + 1) for i in range(len(ALLOPS))]
     out += [("eq", i) for i in range(len(EQ_DOCS))]
     out += [("bigeq", n) for n in (bigdocs.SIZES_QUICK if tier == "quick" else bigdocs.SIZES_THOROUGH)]
-    out += [("isolation", 0), ("oddkeys", 0), ("eqvalues", 0)]
+    out += [("isolation", 0), ("oddkeys", 0), ("eqvalues", 0), ("wide", 0)]
     return out
 
 
@@ -349,6 +354,8 @@ def run_shard(shard, tier, acc):
         odd_keys(acc)
     elif shard[0] == "eqvalues":
         equal_values(acc)
+    elif shard[0] == "wide":
+        wide_entries(acc, tier)
     else:
         equality_shard(shard[1], acc)
 
@@ -417,6 +424,36 @@ def equal_values(acc):
                             {"oracle": "assignment_stores_the_new_object", "how": how},
                             {"case": case, "observed": [repr(got), type(got).__name__], "expected": [repr(v2), type(v2).__name__]},
                         )
+
+
+def wide_entries(acc, tier):
+    """Entries of middling width (1 .. 13 fields, thorough .. 40): every single operation at every position of every
+    width, then a second one at every position - replacing keeps the position whichever field it is (first, middle,
+    last), removal closes the gap, a default handed to pop is only a default."""
+    top = 13 if tier == "quick" else 40
+    for n in range(1, top + 1):
+        keys = [f"k{i:02d}" for i in range(n)]
+        for p in range(n):
+            k = keys[p]
+            firsts = [("setitem", k, "new"), ("set_field", k, "new"), ("pop", k), ("popd", k), ("popself", k), ("popself", k, keys[(p + 1) % n]), ("del", k), ("setitem", "fresh", "f")]
+            for op1 in firsts:
+                e = Entry("article", "key", [Field(x, f"v{i}", start_line=i) for i, x in enumerate(keys)])
+                d = {x: f"v{i}" for i, x in enumerate(keys)}
+                hist = []
+                q = (p * 7 + 3) % n
+                seconds = [("getitem", keys[q]), ("set_field", keys[q], "second"), ("in", k), ("get", k), ("items",), ("fields_dict",), ("setitem", k, "again"), ("pop", keys[q])]
+                for op in [op1] + seconds:
+                    acc.trace()
+                    acc.case(nontrivial_key=("wide", n, p, op1, len(hist)))
+                    r, m = do(e, d, op)
+                    hist.append(list(op))
+                    if r != m or not order_ok(e, d) or len(e.fields) != len(d) or [f.key for f in e.fields] != list(e.fields_dict):
+                        acc.violation(
+                            {"oracle": "result_equals_dict", "op": op[0], "key_kind": "entry of middling width", "position": "first" if p == 0 else ("last" if p == n - 1 else ("middle" if 2 * p + 1 == n else "inner"))},
+                            {"case": {"wide_entry": n, "position": p, "ops": hist}, "observed": [repr(r), [f.key for f in e.fields]], "expected": [repr(m), list(d)]},
+                            size=n,
+                        )
+                        break
 
 
 def odd_keys(acc):
@@ -611,6 +648,8 @@ def replay(case, acc):
         odd_keys(acc)
     elif "equal_values" in case:
         equal_values(acc)
+    elif "wide_entry" in case:
+        wide_entries(acc, "quick" if case["wide_entry"] <= 13 else "thorough")
     elif "doc" in case:
         equality_shard(case["doc"], acc)
     else:
